@@ -176,3 +176,187 @@ def pad_post(vm, st, result):
 
 Contract(CPP, '_Padder.generate_padding', ['C08'], pad_setup, pad_post, shapes={'index': 'obj'}, modifies=['index'],
          notes=['finite domain 1..7 enumerated: complete'])
+
+
+# ------------------------------------------------------------------ _HppDefinitionsTranslator.translate_union
+
+INDENT = z3.Function('INDENTTEXT', StrSort, z3.IntSort(), StrSort)     # _indent(text, n)
+UMEM = z3.Function('UMEM', z3.IntSort(), Ref)                           # j-th member of the union
+
+
+class UnionMembers(Sym):
+    """union.members: iterated by the two generator expressions; a generic element stands for all of them"""
+
+
+def tu_setup(vm, module, env):
+    self = vm.fresh_ref('self', None)
+    union = vm.fresh_ref('union', None)
+    members = UnionMembers()
+    vm.path.objattrs[(str(union.t), 'members')] = members
+    st = {'args': [self, union], 'union': union, 'members': members, 'joins': [], 'templates': [], 'closure_env': {},
+          'elems': []}
+    vm.state = st
+    # C08 quantifies over schemas with known sizes: the union's alignment has been evaluated
+    vm.assume(z3.Not(z3.Select(vm.heap_array('alignment#none'), union.t)))
+    return st
+
+
+def tu_iterate(vm, it):
+    st = vm.state
+    if isinstance(it, UnionMembers):
+        j = vm.fresh('j')
+        e = SRef(UMEM(j), model_class(vm, load_module(MODEL), 'UnionMember'), True)
+        tn = SStr(vm.fresh('arm_type_name', StrSort))
+        vm.path.objattrs[(str(e.t), '_value')] = tn
+        st['elems'].append(e)
+        return [e]
+    return NotImplemented
+
+
+def tu_call(vm, fn, args, kwargs, node):
+    if isinstance(fn, Closure) and fn.qualname.endswith('_indent'):
+        return SStr(INDENT(vm.as_str(args[0]), vm.as_int(args[1])))
+    if isinstance(fn, OpaqueFn) and fn.attr == 'generate_padding':
+        # _Padder.generate_padding by contract (this module): text declaring p bytes of padding
+        p = vm.as_int(args[0])
+        vm.oblige('call.generate_padding: 0 < padding < 8', z3.And(0 < p, p < 8), 'call', vm.cur_line)
+        return SStr(PAD(z3.IntVal(0), p))
+    return NotImplemented
+
+
+def tu_instantiate(vm, cls, args, kwargs):
+    if getattr(cls, 'name', None) == '_Padder':
+        return PadderObj()
+    return NotImplemented
+
+
+def tu_str_join(vm, sep, gen):
+    st = vm.state
+    items = vm.iterate(gen)
+    e = st['elems'][-1] if st['elems'] else None
+    ok = len(items) == 1 and e is not None
+    name = z3.Select(vm.heap_array('name'), e.t) if ok else None
+    if sep == ',\n':
+        want = vm.format_term('discriminator_{0} = {1}', (SStr(name), _disc_value(vm, e))) if ok else None
+        vm.oblige('enumerators: one `discriminator_<arm> = <value>` per arm', vm.as_str(items[0]) == want if ok and want is not None
+                  else z3.BoolVal(False), 'call', vm.cur_line)
+        st['joins'].append('enum')
+        return SStr(vm.fresh('enum_fields', StrSort))
+    if sep == '':
+        vm.oblige('anonymous union: one `<type> <arm>;` per arm',
+                  z3.BoolVal(ok and isinstance(items[0], SStr)), 'call', vm.cur_line)
+        st['joins'].append('union')
+        return SStr(vm.fresh('union_fields', StrSort))
+    return NotImplemented
+
+
+def _disc_value(vm, e):
+    return vm.load(e, 'discriminator') if hasattr(vm, 'load') else None
+
+
+def tu_format(vm, fmt, args, kwargs):
+    st = vm.state
+    if kwargs:
+        st['templates'].append((fmt, dict(kwargs)))
+        vals = tuple(kwargs[k] for k in sorted(kwargs))
+        vals = tuple(SStr(v.t) if type(v).__name__ == 'SOptStr' else v for v in vals)
+        t = vm.format_term(fmt + '|' + ','.join(sorted(kwargs)), vals)
+        if t is None:
+            return SStr(vm.fresh('template', StrSort))
+        return SStr(t)
+    return NotImplemented
+
+
+def tu_post(vm, st, result):
+    u = st['union'].t
+    al = z3.Select(vm.heap_array('alignment'), u)
+    part = [t for t in st['templates'] if 'padding' in t[1]]
+    whole = [t for t in st['templates'] if 'parts' in t[1]]
+    r = [('the discriminator enum and the anonymous union are generated from union.members', z3.BoolVal(sorted(st['joins']) == ['enum', 'union'])),
+         ('one part template, one union template', z3.BoolVal(len(part) == 1 and len(whole) == 1))]
+    if len(part) == 1:
+        pad = part[0][1]['padding']
+        four = strcat(PAD(z3.IntVal(0), z3.IntVal(4)), vm.contract.str_const('\n'))
+        r.append(('4 bytes of padding after the discriminator iff the union is 8-aligned',
+                  z3.If(al == 8, vm.as_str(pad) == four, vm.as_str(pad) == vm.contract.str_const(''))))
+    if len(whole) == 1:
+        a = whole[0][1]['align']
+        r.append(('PROPHY_STRUCT(alignment of the union)', vm.as_int(a) == al if not isinstance(a, str) else z3.BoolVal(False)))
+    return r
+
+
+RTU = dict(SHAPES)
+RTU['members'] = 'obj'
+RTU['discriminator'] = 'str'
+
+Contract(CPP, '_HppDefinitionsTranslator.translate_union', ['C08'], tu_setup, tu_post, shapes=RTU, modifies=[],
+         hooks={'iterate': tu_iterate, 'call': tu_call, 'str_join': tu_str_join, 'format': tu_format, 'instantiate': tu_instantiate,
+                'getattr': gm_getattr},
+         notes=['_indent opaque; the texts of the enumerators / arms are formatting terms of a generic arm'])
+
+
+# ------------------------------------------------------------------ translate_struct.gen_part
+
+class PartList(Sym):
+    """a part: non-empty list of members; only part[0] is inspected here"""
+
+    def __init__(self, first):
+        self.first = first
+
+
+def gp_setup(vm, module, env):
+    first = vm.fresh_ref('first_member', None)
+    part = PartList(first)
+    index = SInt(vm.fresh('index'))
+    vm.assume(index.t >= 0)
+    padder = PadderObj()
+    st = {'args': [index, part, padder], 'index': index, 'part': part, 'padder': padder, 'first': first, 'templates': [],
+          'blocks': [], 'closure_env': {'gen_block': OpaqueFn(part, 'gen_block')}}
+    vm.state = st
+    return st
+
+
+def gp_index(vm, obj, idx):
+    if isinstance(obj, PartList):
+        vm.oblige('part[0]', vm.as_int(idx) == 0 if isinstance(idx, Sym) else z3.BoolVal(idx == 0), 'call', vm.cur_line)
+        return obj.first
+    return NotImplemented
+
+
+def gp_call(vm, fn, args, kwargs, node):
+    st = vm.state
+    if isinstance(fn, OpaqueFn) and fn.attr == 'gen_block':
+        vm.oblige('call.gen_block(part, padder): the same part, the struct\'s single padder',
+                  z3.BoolVal(args[0] is st['part'] and args[1] is st['padder']), 'call', vm.cur_line)
+        t = SStr(vm.fresh('block', StrSort))
+        st['blocks'].append(t)
+        return t
+    if isinstance(fn, Closure) and fn.qualname.endswith('_indent'):
+        return SStr(INDENT(vm.as_str(args[0]), vm.as_int(args[1])))
+    return NotImplemented
+
+
+def gp_format(vm, fmt, args, kwargs):
+    if kwargs:
+        vm.state['templates'].append((fmt, dict(kwargs)))
+        return SStr(vm.fresh('template', StrSort))
+    return NotImplemented
+
+
+def gp_post(vm, st, result):
+    t = st['templates']
+    r = [('one part template', z3.BoolVal(len(t) == 1 and len(st['blocks']) == 1))]
+    if len(t) == 1 and len(st['blocks']) == 1:
+        kw = t[0][1]
+        al = kw.get('align')
+        first_al = vm.load(st['first'], 'alignment')
+        r.append(('the part is named part<index + 2> (parts are numbered from 2)', vm.as_int(kw.get('index')) == st['index'].t + 2))
+        r.append(('its block is the declarations of its members', z3.BoolVal(kw.get('block') is st['blocks'][0])))
+        r.append(('PROPHY_STRUCT(alignment of the part\'s first member, which model.evaluate_partial_padding_size raised to the '
+                  'part\'s maximum)', z3.BoolVal(al is first_al) if not hasattr(al, 'val') else z3.And(al.isnone == first_al.isnone, al.val == first_al.val)))
+    return r
+
+
+Contract(CPP, '_HppDefinitionsTranslator.translate_struct.gen_part', ['C08'], gp_setup, gp_post, shapes=RT, modifies=[],
+         hooks={'index': gp_index, 'call': gp_call, 'format': gp_format},
+         notes=['gen_block by contract (gen_member per member); _indent opaque'])
